@@ -241,7 +241,7 @@ def _worker(inp, outp):
         json.dump(res, f)
 
 
-def impl_runs(wd, explore, replay, budget, name):
+def impl_runs(wd, explore, replay, budget, name, timeout=300):
     inp, outp = os.path.join(wd, name + '.in.json'), os.path.join(wd, name + '.out.json')
     scratch = os.path.join(wd, name + '.listings')
     os.makedirs(scratch, exist_ok=True)
@@ -249,7 +249,7 @@ def impl_runs(wd, explore, replay, budget, name):
         json.dump(dict(explore=explore, replay=replay, budget=budget, scratch=scratch), f)
     try:
         p = subprocess.run([sys.executable, os.path.abspath(__file__), '--worker', inp, outp], capture_output=True, text=True,
-                           timeout=300, env=dict(os.environ, PYTHONHASHSEED='0'))
+                           timeout=timeout, env=dict(os.environ, PYTHONHASHSEED='0'))
     except subprocess.TimeoutExpired as ex:
         raise tlc.MachineryError('conf_parselock worker timed out') from ex
     if p.returncode != 0 or not os.path.exists(outp):
@@ -367,7 +367,7 @@ def run(ctx, wd):
     nproc = 8
     chunks = [(jobs[i::nproc], replay[i::nproc]) for i in range(nproc)]
     with ThreadPoolExecutor(max_workers=nproc) as tp:
-        parts = list(tp.map(lambda a: impl_runs(wd, a[1][0], a[1][1], ctx.pick(60, 400), 'pl%d' % a[0]), enumerate(chunks)))
+        parts = list(tp.map(lambda a: impl_runs(wd, a[1][0], a[1][1], ctx.pick(60, 400), 'pl%d' % a[0], ctx.pick(300, 2400)), enumerate(chunks)))
     res = dict(explored=[x for p in parts for x in p['explored']], replayed=[x for p in parts for x in p['replayed']])
     replay = [x for i in range(nproc) for x in replay[i::nproc]]
     stats = dict(schedules=0, complete_pairs=0, replayed=len(replay), rejected=0, wrong=0)
